@@ -26,7 +26,7 @@ from .. import refdbus as R
 from .. import busbox as B
 from ..engine import Pool, Violation, worker_bus, crash_violation
 from ..vbox import HarnessDied
-from ..session import BusSession
+from ..session import BusSession, NOC_RULE as NOC_RULE_
 from ..registry import claim
 
 claim('C10', 'model_checking',
@@ -72,7 +72,51 @@ def corpus(h_name=b':1.3', b_name=b':1.1'):
     c.append(('call-unknown-dest', R.method_call(s, 'no.such.name', '/x', 'x.y', 'M', [])))
     c.append(('call-no-dest', R.method_call(s, None, '/x', 'x.y', 'M', [])))
     c.append(('bigendian-call', R.method_call(s, b_name, '/x', 'x.y', 'M', [R.S('h'), R.U(5)], flags=1, endian='B')))
+    # the rest of the driver's interface (each handler parses its own arguments)
+    c.append(('ListActivatableNames', bc('ListActivatableNames')))
+    c.append(('ListQueuedOwners', bc('ListQueuedOwners', [R.S('org.freedesktop.DBus')])))
+    c.append(('GetConnectionUnixProcessID', bc('GetConnectionUnixProcessID', [R.S(b_name)])))
+    c.append(('GetAdtAuditSessionData', bc('GetAdtAuditSessionData', [R.S(b_name)])))
+    c.append(('GetConnectionSELinuxSecurityContext', bc('GetConnectionSELinuxSecurityContext', [R.S(b_name)])))
+    c.append(('GetMachineId', bc('GetMachineId', iface=b'org.freedesktop.DBus.Peer')))
+    c.append(('Properties.Set', bc('Set', [R.S('org.freedesktop.DBus'), R.S('Features'), R.V(R.A('s', [R.S('x')]))], iface=b'org.freedesktop.DBus.Properties')))
+    c.append(('ReloadConfig', bc('ReloadConfig')))
     return c
+
+
+def extreme_messages(b_name=b':1.1'):
+    """Well-formed (or just-not well-formed) messages at the limits of what the format allows: every kind of container
+    open to around its own nesting limit, alone and at the same time, in the SIGNATURE field and in a variant; values are
+    empty arrays / minimal, so the messages stay small.  Whatever the verdict on each, the bus has to stay in service."""
+    out = []
+    s = 7
+
+    def nested(outer, k, inner):
+        # k levels of `outer` ('a', '(' or 'a{s') around value `inner`
+        v = inner
+        for _ in range(k):
+            if outer == '(':
+                v = R.ST(v)
+            elif outer == 'a':
+                v = R.A(v[0], [])
+            else:
+                v = R.A(b'{s' + v[0] + b'}', [])
+        return v
+    for k in (31, 32, 33):
+        out.append(('arrays-%d' % k, nested('a', k, R.I(1))))
+        out.append(('structs-%d' % k, nested('(', k, R.I(1))))
+        out.append(('dicts-%d' % k, nested('a{s', k, R.I(1))))
+        for j in (31, 32, 33):
+            out.append(('dicts-%d-of-structs-%d' % (k, j), nested('a{s', k, nested('(', j, R.I(1)))))
+            out.append(('structs-%d-of-dicts-%d' % (j, k), nested('(', j, nested('a{s', k, R.I(1)))))
+            out.append(('arrays-%d-of-structs-%d' % (k, j), nested('a', k, nested('(', j, R.I(1)))))
+    msgs = []
+    for name, v in out:
+        msgs.append((name, R.method_call(s, b_name, '/x', 'x.y', 'M', [v], flags=1)))
+        msgs.append((name + '-to-bus', R.bus_call(s, 'GetId', [v])))
+        if len(v[0]) <= 255:
+            msgs.append((name + '-in-variant', R.signal(s, '/x', 'x.y', 'Sig', [R.V(v)])))
+    return msgs
 
 
 class Arena(BusSession):
@@ -150,10 +194,23 @@ class Arena(BusSession):
         # what should others be able to see from H: only valid messages of its stream
         valid = []
         status = 'clean'
+        gray = False
         if state != 'raw':
             msgs, status = R.split_stream(data, 0)
             valid = [m for m, _ in msgs]
-        invalid = isinstance(status, tuple)
+            # the other reading of the dict-entry nesting rule (see refdbus.judged_decode): where the two readings disagree,
+            # or the reference itself calls the input unspecified, the sender may be kept or dropped and the message may
+            # or may not be shown to others; everything else (liveness, isolation, restored state) is judged as always
+            from .. import grammars as G_
+            G_.STRICT = False
+            try:
+                msgs2, status2 = R.split_stream(data, 0)
+            finally:
+                G_.STRICT = True
+            if isinstance(status, tuple) != isinstance(status2, tuple) or (isinstance(status, tuple) and status[1].startswith('gray.')):
+                gray = True
+                valid = valid + [m for m, _ in msgs2]
+        invalid = isinstance(status, tuple) and not gray
         allowed = set()
         for m in valid:
             m2 = m.copy()
@@ -311,6 +368,61 @@ def task_scenarios(t):
             for v in vs:
                 v.case = {'scenario': ['storm']}
             out.extend(vs)
+        elif kind == 'half-close':
+            # a client that stops READING for good (shutdown(SHUT_RD)) while the bus has, or gets, something to write to it,
+            # and keeps its connection open: the bus cannot write and must neither spin nor stop serving; a client that
+            # stops WRITING (SHUT_WR) is an end-of-stream and is dropped
+            for state in ('registered', 'nohello'):
+                for order in ('request-then-shutrd', 'shutrd-then-request', 'shutrd-then-signal-for-it', 'shutwr-after-request', 'shutrd-and-shutwr'):
+                    vs = []
+                    desc = 'half-close %s/%s' % (state, order)
+                    hcl = arena.new_hostile(state)
+                    c = arena.slots[hcl]
+                    req = R.encode_message(R.bus_call(arena.bus.next_serial(c), 'GetId' if state == 'registered' else 'Hello'))
+                    if order == 'request-then-shutrd':
+                        arena.bus.send(c, req)
+                        arena.bus.h.cmd('SHUTRD %d nopump' % c)
+                        arena.bus.pump()
+                    elif order == 'shutrd-then-request':
+                        arena.bus.h.cmd('SHUTRD %d' % c)
+                        arena.send_raw(hcl, req)
+                    elif order == 'shutrd-then-signal-for-it':
+                        if state == 'registered':
+                            arena.send_raw(hcl, R.encode_message(R.bus_call(arena.bus.next_serial(c), 'AddMatch', [R.S(NOC_RULE_)])))
+                        arena.bus.h.cmd('SHUTRD %d' % c)
+                        x = arena.new_hostile('registered')          # NameOwnerChanged for the newcomer is broadcast to hcl
+                        arena.close_slot(x)
+                    elif order == 'shutwr-after-request':
+                        arena.bus.send(c, req)
+                        arena._distribute(arena.bus._parse(arena.bus.h.cmd('SHUTWR %d' % c)))
+                    else:
+                        arena.bus.h.cmd('SHUTRD %d nopump' % c)
+                        arena._distribute(arena.bus._parse(arena.bus.h.cmd('SHUTWR %d' % c)))
+                    arena.bus.pump()
+                    arena._distribute(arena.bus.recvall())
+                    for l in ('A', 'B', 'M'):
+                        arena.take(l)
+                    arena.round_trip(vs, desc)                       # reports bus-spins / bystanders not served
+                    r2 = arena.bus.pump()
+                    if arena.bus.spin:
+                        vs.append(Violation('bus-spins', 'loop', '%s: with nothing left to do the event loop still does not go idle' % desc, None))
+                        arena.bus.spin = False
+                    if arena.is_open(hcl):
+                        arena.close_slot(hcl)
+                    for l in ('A', 'B', 'M'):
+                        arena.take(l)
+                    if not vs:
+                        arena.round_trip(vs, desc + ' (after close)')
+                    for l in ('A', 'B', 'M'):
+                        arena.take(l)
+                    if not vs:
+                        arena.restored(vs, desc)
+                    n += 1
+                    for v in vs:
+                        v.case = {'scenario': ['half-close']}
+                    out.extend(vs)
+                    if vs:
+                        arena = Arena()
         elif kind == 'histories':
             # stateful abuse: every sequence of <= 2 well-formed but awkward requests by a registered hostile client,
             # followed by an abrupt close while their effects (pending replies, queued names, rules) are outstanding
@@ -538,7 +650,20 @@ def build_tasks(tier):
         for d2, b2 in muts[::97]:
             steps.append(('%s:%s' % (label, d2), 'nohello', 'silence', b2.hex()))
             steps.append(('%s:%s' % (label, d2), 'raw', 'close', b2.hex()))
+    # extreme but (nearly) well-formed messages, as they are: registered, before Hello, and two in a row
+    xsteps = []
+    for label, m in extreme_messages():
+        try:
+            data = R.encode_message(m)
+        except Exception:
+            continue
+        xsteps.append(('extreme:' + label, 'registered', 'silence', data.hex()))
+        xsteps.append(('extreme:' + label, 'nohello', 'silence', data.hex()))
+    for i in range(0, len(xsteps), 30):
+        tasks.append((task_mutations, xsteps[i:i + 30]))
+    steps = xsteps + steps
     mut_tasks = []
+    steps = steps[len(xsteps):]
     for i in range(0, len(steps), 400):
         mut_tasks.append((task_mutations, steps[i:i + 400]))
     seqs = [(i,) for i in range(len(SASL))] + list(itertools.product(range(len(SASL)), repeat=2))
@@ -555,6 +680,7 @@ def build_tasks(tier):
     ah = activation_close_histories()
     for i in range(0, len(ah), 6):
         tasks.append((task_activation_close, ah[i:i + 6]))
+    tasks.append((task_scenarios, ('half-close',)))
     tasks.append((task_scenarios, ('broadcast-refusal',)))
     tasks.append((task_scenarios, ('auth-backlog',)))
     tasks.append((task_scenarios, ('storm',)))
